@@ -724,7 +724,28 @@ CORPUS = [
 ]
 
 
+# second corpus deck: two cells of the same material and density (seeded change
+# C14_B: compositions keyed on the value, associations on the spelling)
+CORPUS2_BASE = ('''corpus two cells\n1 1 -2.7 -1 imp:n=1\n2 1 -2.7 1 -2 imp:n=1\n3 0 2 imp:n=0\n\n'''
+                '''1 so 5.0\n2 so 9.0\n\nm1 13027 1.0\n''')
+CORPUS2 = [
+    ('second density -2.7e0', lambda t: t.replace('2 1 -2.7 ', '2 1 -2.7e0 ')),
+    ('second density -27.-1', lambda t: t.replace('2 1 -2.7 ', '2 1 -27.-1 ')),
+    ('second density -.27d1', lambda t: t.replace('2 1 -2.7 ', '2 1 -.27d1 ')),
+    ('first density -2.70, second -2.7+0', lambda t: t.replace('1 1 -2.7 ', '1 1 -2.70 ').replace('2 1 -2.7 ', '2 1 -2.7+0 ')),
+]
+
+
 def run_corpus(res):
+    base2 = outcome(convert(CORPUS2_BASE))
+    res.count('corpus2:base:' + str(base2[0]))
+    for label, rewrite in CORPUS2:
+        text = rewrite(CORPUS2_BASE)
+        res.seen(text)
+        ok = compare(CORPUS2_BASE, base2, text,
+                     {'used': ['corpus: ' + label], 'stream': 'corpus'}, True, res)
+        res.count('corpus2:' + ('same' if ok else 'differs'))
+
     base = outcome(convert(CORPUS_BASE))
     res.count('corpus:base:' + str(base[0]))
     for label, rewrite in CORPUS:
